@@ -213,7 +213,7 @@ def all_hand_jobs(model, tier):
     # big-endian suite (scalars, which cover every element width and the float/double paths, and the path functions are)
     from handjobs3 import POINTERS
     ptr_labs = tuple('/' + v[0] for v in POINTERS.values())
-    vss_be = [j for j in vss_be if not j.name.endswith(ptr_labs)]
+    vss_be = [j for j in vss_be if not any(l in j.name for l in ptr_labs)]
     if tier == 'quick':
         keep = ('Avtp_Vss_CalcVssPathLength/iface', 'Avtp_Vss_SetVssPath/iface', 'Avtp_Vss_GetVssPath/iface', 'at-0x03', 'at-0x06', 'at-0x09', 'at-0x0A', 'at-0x82',
                 '/VSS_INT16', '/VSS_UINT64', '/VSS_FLOAT', '/VSS_DOUBLE')
